@@ -130,9 +130,11 @@ class _Uninit(Exception):
     pass
 
 
-def uninit_vars(body):
+def uninit_vars(body, lenient=False):
     """explicit-state search: returns the set of variables for which some syntactic path reaches a load
-    before any store (empty set = definitely initialised everywhere), and the number of states visited"""
+    before any store (empty set = definitely initialised everywhere), and the number of states visited.
+    lenient=True also walks code that follows Return/Break/Continue in the same sequence (PyTeal merges such
+    dead code into the preceding block and may name one of ITS loads first)."""
     bad = set()
     visited = [0]
 
@@ -169,11 +171,11 @@ def uninit_vars(body):
         if k == "tick":
             return states, set(), set()
         if k == "break":
-            return set(), set(states), set()
+            return (set(states) if lenient else set()), set(states), set()
         if k == "cont":
-            return set(), set(), set(states)
+            return (set(states) if lenient else set()), set(), set(states)
         if k == "ret":
-            return set(), set(), set()
+            return (set(states) if lenient else set()), set(), set()
         if k == "if":
             s0 = cond(s[1], states)
             n, b, c = seq(s[2], s0)
